@@ -25,7 +25,7 @@ RULE = ('programs = trees of nodes (definition / modification / definition with 
         'distinct by rendered text')
 SHARDS = {'quick': 16, 'thorough': 16}
 MIN_NONTRIVIAL = {'quick': 9000, 'thorough': 60000}
-REQUIRED_CLASSES = ['core-single', 'core-nested', 'core-sequence', 'closure-end', 'closure-indent', 'nesting>=2',
+REQUIRED_CLASSES = ['repeated-condition-text', 'repeated-condition-text:defined', 'repeated-condition-text:change-in-selected-clause', 'core-single', 'core-nested', 'core-sequence', 'closure-end', 'closure-indent', 'nesting>=2',
                     'nesting>=3', 'node-before', 'node-inside', 'node-between', 'node-after', 'all-false',
                     'else-selected', 'later-true-clause-shadowed', 'block-under-group', 'compact-form',
                     'condition-expression', 'modification-in-clause', 'property-in-clause',
@@ -51,6 +51,7 @@ EXHAUSTIVE_SUBSPACES = {
     'thorough': ['same complete core as quick']}
 NRANDOM = {'quick': 2600, 'thorough': 84000}
 NMUSTFAIL = {'quick': 300, 'thorough': 4000}
+NREPEATED = {'quick': 320, 'thorough': 8000}
 
 _uid = [0]
 
@@ -80,6 +81,12 @@ def cases(rng, tier, shard, nshards, ctx):
             c = dict(c)
             c['noise'] = rng.choice(['every', rng.randrange(1 << 30)])
             yield c
+    # one condition text in several blocks while the node it reads changes in between
+    for _ in range(NREPEATED[tier] // nshards):
+        c = R.gen_repeated(rng)
+        if rng.random() < 0.25:
+            c['noise'] = rng.randrange(1 << 30)
+        yield c
     for _ in range(NMUSTFAIL[tier] // nshards):
         c = R.gen_mustfail(rng)
         if c:
@@ -258,6 +265,8 @@ def classes_of(case, A):
         cl.append('core-' + fam)
     elif fam == 'random':
         cl.append('random')
+    elif fam == 'repeated-condition':
+        cl += ['repeated-condition-text', 'repeated-condition-text:' + case.get('kind', '?'), 'repeated-condition-text:change-' + case.get('where', '?')]
     ev = A.events
     blocks = A.blocks
     if any(b['close'] == 'end' for b in blocks):
